@@ -26,7 +26,7 @@ Count(str, c) == Cardinality({i \in 1 .. Len(str) : str[i] = c})
 \* base shapes per campaign; `imps` is the import section as a sequence of kinds
 ShapesF == {
   [imps |-> <<"f","f">>,         lf |-> 2, lg |-> 0, lm |-> 0, feat |-> <<"exports","names">>],
-  [imps |-> <<"m","f","g","f">>, lf |-> 2, lg |-> 1, lm |-> 0, feat |-> <<"exports","tail","gref">>],
+  [imps |-> <<"m","f","g","f">>, lf |-> 2, lg |-> 1, lm |-> 0, feat |-> <<"exports","tail","gref","names">>],
   [imps |-> <<"f">>,             lf |-> 2, lg |-> 0, lm |-> 0, feat |-> <<"elem","start","tinit">>],
   [imps |-> <<>>,                lf |-> 2, lg |-> 0, lm |-> 0, feat |-> <<"exports","names","start">>],
   [imps |-> <<"f">>,             lf |-> 1, lg |-> 0, lm |-> 0, feat |-> <<"exports","duptypes">>],
